@@ -66,15 +66,17 @@ type World struct {
 	Dir  string // data directory
 	// DirSuffix: how the caller spells the directory in Options.DirPath ("" or a trailing separator)
 	DirSuffix string
-	DB        *kv.DB
-	Model     map[string]string
-	Keys      []string // key universe (observed on every step)
-	Step      int
-	Dead      bool // a panic happened; the instance is abandoned
-	Errs      int  // mutation calls that failed unexpectedly (modelled as no effect)
-	Cnt       map[string]int64
-	Hist      map[string]map[string]bool // every value ever written per key (C12 etc.)
-	seqDir    int
+	// BackgroundMerge: Options.EnableBackgroundMerge (the engine's own timer-driven Merge goroutine)
+	BackgroundMerge bool
+	DB              *kv.DB
+	Model           map[string]string
+	Keys            []string // key universe (observed on every step)
+	Step            int
+	Dead            bool // a panic happened; the instance is abandoned
+	Errs            int  // mutation calls that failed unexpectedly (modelled as no effect)
+	Cnt             map[string]int64
+	Hist            map[string]map[string]bool // every value ever written per key (C12 etc.)
+	seqDir          int
 
 	// Adversarial caller (C14/C15): one key buffer and one value buffer are reused for every call and
 	// poisoned after each return; Alias records the first canary failure.
@@ -169,7 +171,9 @@ func (w *World) OpenWith(c Cfg) error {
 	var db *kv.DB
 	err := w.guard(func() error {
 		var e error
-		db, e = kv.Open(c.options(w.Dir + w.DirSuffix))
+		o := c.options(w.Dir + w.DirSuffix)
+		o.EnableBackgroundMerge = w.BackgroundMerge
+		db, e = kv.Open(o)
 		return e
 	})
 	if err == nil {
